@@ -60,6 +60,10 @@ def replay_case(args):
     kw = {}
     if shapecol:
         t['model_shape'] = [(r['mh'], r['mw']) for r in rows]
+        if idx % 3 == 0:
+            # documented: the column overrides the keyword for each source
+            kw['model_shape'] = [(3, 3), 5, (7, 3)][(idx // 3) % 3]
+            sig['keyword_next_to_column'] = True
     else:
         if len({(r['mh'], r['mw']) for r in rows}) != 1:
             return out
@@ -208,6 +212,8 @@ def psfphot_pairs(seed):
     y, x = np.mgrid[:shape[0], :shape[1]]
     m = CircularGaussianPRF(fwhm=3.2)
     pos = [(11.3, 10.6), (16.1, 12.4), (35.2, 30.8), (44.0, 9.5), (2.0, 40.2)]
+    if seed % 2:      # input order in which the members of a group are not adjacent (group ids not monotonic in the source id)
+        pos = [pos[k] for k in rng.permutation(len(pos))]
     data = np.zeros(shape)
     for k, (px, py) in enumerate(pos):
         data += m.evaluate(x, y, 400.0 + 100 * k, px, py, 3.2)
